@@ -799,6 +799,8 @@ func main() {
 	legDone("leg1_interleaved")
 	runRouterSpace(r, routerSpace)
 	legDone("leg1c_router")
+	runRouterLookupLeg(r, routerSpace)
+	legDone("leg1d_router_lookup")
 
 	// ----- Leg 2 (before the 2-rule bulk of leg 1, so that it always gets its share) -----
 	setShare(shares[2])
